@@ -6,13 +6,18 @@
 
   Proved: typing (image WF, dom/cod are the images of dom/cod), `F(Id) = Id(F)`,
   `F(a >> b) = F(a) >> F(b)`, `F(a @ b) = F(a) @ F(b)`, adjoints `F(t.l) = F(t).l`, `F(t.r) = F(t).r` for every winding
-  number, the special rules for swaps/cups/caps, dagger for generator boxes.
-  NOT proved here (kept as `Prop`s; checked by the law oracle on the real code on every run):
-  `F_slice`, `F_sum`.  `F_dagger` is proved for diagrams whose boxes satisfy the box-level dagger
+  number, the special rules for swaps/cups/caps, dagger for generator boxes;
+  `F_slice`: `F(d[i:j]) = F(d)[i':j']` for EVERY pair of Python bounds (omitted, negative, beyond the
+  end, `i > j`: normalised by `pyLo`/`pyHi`, i.e. CPython's clamping), `i' = Σ_{k<i} |F(box_k).boxes|`
+  (`Functor.imgIdx`), both slices always exist; `F_sum_*`: `F(a + b) = F(a) + F(b)`,
+  `F(Sum([], dom, cod)) = Sum([], F dom, F cod)`, `F(Sum([d])) = Sum([F d])`, typing of the image of a
+  sum, and `F` commutes with `Sum.then`, `Sum.tensor` (and `Sum.dagger` under the box-level dagger
+  law).  Bubbles are not modelled (out of scope).
+  `F_dagger` is proved for diagrams whose boxes satisfy the box-level dagger
   law (`F_dagger_partial`; generator boxes do) and refuted in general (`F6_swap_witness`).  FALSE for the code (finding F6, witnessed on the real code):
   `F(Swap(x,y)†) = F(Swap(x,y))†` when both images have ≥ 2 wires.
 -/
-import Proofs.FunctorDagger
+import Proofs.FunctorSum
 
 namespace DV.C04
 open DV
@@ -87,6 +92,83 @@ def F_dagger : Prop :=
   ∀ (F : Functor) (d fd : Diagram), d.WF → (∀ b ∈ d.boxes, F.okOn b) →
     F.apply d = .ok fd → F.apply d.dagger = .ok fd.dagger
 
+/-! ### Slices -/
+
+/-- `F(d[i:j]) = F(d)[i':j']` for all Python slice bounds `i`, `j` (`none` = omitted), where
+    `i' = Σ_{k < pyLo n i} |F(box_k).boxes|`, `j' = Σ_{k < pyHi n j} |F(box_k).boxes|` and `pyLo`, `pyHi`
+    are CPython's normalisation of the bounds to `[0, n]`.  Both slices always exist; when the
+    normalised `i` exceeds the normalised `j` both sides are the identity on the image of the type
+    before box `i`. -/
+theorem F_slice (F : Functor) (d fd : Diagram) (hd : d.WF) (hok : ∀ b ∈ d.boxes, F.okOn b)
+    (hfd : F.apply d = .ok fd) (i j : Option Int) :
+    ∃ s fs, d.slice i j = .ok s ∧ F.apply s = .ok fs ∧
+      fd.slice (some (F.imgIdx d.boxes (pyLo d.boxes.length i) : Nat))
+               (some (F.imgIdx d.boxes (pyHi d.boxes.length j) : Nat)) = .ok fs :=
+  F.apply_slice hd hok hfd i j
+
+/-- The plain case `0 ≤ i, j ≤ len(d)`: no normalisation needed. -/
+theorem F_slice_nat (F : Functor) (d fd : Diagram) (hd : d.WF) (hok : ∀ b ∈ d.boxes, F.okOn b)
+    (hfd : F.apply d = .ok fd) (i j : Nat) (hi : i ≤ d.boxes.length) (hj : j ≤ d.boxes.length) :
+    ∃ s fs, d.slice (some (i : Int)) (some (j : Int)) = .ok s ∧ F.apply s = .ok fs ∧
+      fd.slice (some (F.imgIdx d.boxes i : Nat)) (some (F.imgIdx d.boxes j : Nat)) = .ok fs :=
+  F.apply_slice_nat hd hok hfd i j hi hj
+
+/-- The slice the law speaks about is made of the boxes and offsets `d.boxes[i:j]`, `d.offsets[i:j]`. -/
+theorem slice_boxes (d s : Diagram) (hd : d.WF) (i j : Option Int) (h : d.slice i j = .ok s) :
+    s.boxes = pySlice d.boxes i j ∧ s.offsets = pySlice d.offsets i j :=
+  Diagram.slice_boxes hd i j h
+
+/-- The re-indexed bounds are monotone and stay within the image (`imgIdx … len(d) = len(F(d))`). -/
+theorem imgIdx_mono (F : Functor) (bs : List Box) (a b : Nat) (h : a ≤ b) :
+    F.imgIdx bs a ≤ F.imgIdx bs b := F.imgIdx_mono bs h
+
+/-! ### Formal sums (cat.py:833-835) -/
+
+/-- Typing: the image of a well-typed sum is a well-typed sum from `F(dom)` to `F(cod)`. -/
+theorem F_sum_typing (F : Functor) (s r : Sum) (hs : s.WF) (hok : F.okOnSum s)
+    (h : F.applySum s = .ok r) : r.WF ∧ F.ty s.dom = .ok r.dom ∧ F.ty s.cod = .ok r.cod :=
+  F.applySum_wf hs hok h
+
+/-- The terms of the image are the images of the terms, and on a well-typed sum the constructor's
+    re-validation never refuses them. -/
+theorem F_sum_terms (F : Functor) (s : Sum) (ts : List Diagram) (d c : Ty) (hs : s.WF)
+    (hok : F.okOnSum s) (hm : F.Maps s.terms ts) (hd : F.ty s.dom = .ok d) (hc : F.ty s.cod = .ok c) :
+    F.applySum s = .ok ⟨ts, d, c⟩ := (F.applySum_props hs hok hm hd hc).1
+
+/-- `F(Sum([], dom, cod)) = Sum([], F(dom), F(cod))`. -/
+theorem F_sum_empty (F : Functor) (dom cod d c : Ty) (hd : F.ty dom = .ok d) (hc : F.ty cod = .ok c) :
+    F.applySum (Sum.zero dom cod) = .ok (Sum.zero d c) := F.applySum_zero hd hc
+
+/-- `F(Sum([x])) = Sum([F(x)])`. -/
+theorem F_sum_single (F : Functor) (x fx : Diagram) (hx : x.WF) (hok : ∀ b ∈ x.boxes, F.okOn b)
+    (h : F.apply x = .ok fx) : F.applySum (Sum.single x) = .ok (Sum.single fx) :=
+  F.applySum_single hx hok h
+
+/-- `F(a + b) = F(a) + F(b)` (no hypothesis on the functor or on the terms). -/
+theorem F_sum_add (F : Functor) (a b ab fa fb : Sum) (hd : a.dom = b.dom) (hc : a.cod = b.cod)
+    (hab : a.add b = .ok ab) (hfa : F.applySum a = .ok fa) (hfb : F.applySum b = .ok fb) :
+    ∃ r, fa.add fb = .ok r ∧ F.applySum ab = .ok r := F.applySum_add hd hc hab hfa hfb
+
+/-- `F(a >> b) = F(a) >> F(b)` for sums. -/
+theorem F_sum_then (F : Functor) (a b ab fa fb : Sum) (ha : a.WF) (hb : b.WF) (hoka : F.okOnSum a)
+    (hokb : F.okOnSum b) (h : a.cod = b.dom) (hab : a.then b = .ok ab)
+    (hfa : F.applySum a = .ok fa) (hfb : F.applySum b = .ok fb) :
+    ∃ r, fa.then fb = .ok r ∧ F.applySum ab = .ok r :=
+  F.applySum_then ha hb hoka hokb h hab hfa hfb
+
+/-- `F(a @ b) = F(a) @ F(b)` for sums. -/
+theorem F_sum_tensor (F : Functor) (a b ab fa fb : Sum) (ha : a.WF) (hb : b.WF) (hoka : F.okOnSum a)
+    (hokb : F.okOnSum b) (hab : a.tensor b = .ok ab)
+    (hfa : F.applySum a = .ok fa) (hfb : F.applySum b = .ok fb) :
+    ∃ r, fa.tensor fb = .ok r ∧ F.applySum ab = .ok r :=
+  F.applySum_tensor ha hb hoka hokb hab hfa hfb
+
+/-- `F(a†) = F(a)†` for sums whose boxes satisfy the box-level dagger law (cf. `F_dagger_partial`). -/
+theorem F_sum_dagger_partial (F : Functor) (a a' fa : Sum) (ha : a.WF) (hok : F.okOnSum a)
+    (hdag : ∀ t ∈ a.terms, ∀ b ∈ t.boxes, ∀ x, F.box b = .ok x → F.box b.dag = .ok x.dagger)
+    (had : a.dagger = .ok a') (hfa : F.applySum a = .ok fa) :
+    ∃ r, fa.dagger = .ok r ∧ F.applySum a' = .ok r := F.applySum_dagger ha hok hdag had hfa
+
 /-! Non-vacuity: a functor with an empty and a two-wire object image, applied to a 2-box diagram. -/
 private def x : Ob := ⟨"x", 0⟩
 private def y : Ob := ⟨"y", 0⟩
@@ -104,5 +186,42 @@ example : (match F0.apply (match Diagram.mk? [x, x] [x, y] [f, g, f] [0, 0, 1] w
     | .ok r => r.dom == [p, q, p, q] && r.cod == [p, q] && r.boxes.length == 3
     | .error _ => false) = true := by decide
 example : F0.ty (Ty.l [x, y]) = .ok (Ty.l [p, q]) := by decide
+
+/-! Slices and sums: a functor whose box images have 2, 0 and 1 boxes (so the bounds really move),
+    on `f >> g >> f >> e`; bounds `[1:3]`, `[-3:]`, `[2:1]` (empty, `i > j`), `[:7]`. -/
+private def h1 : Box := { name := "h1", dom := [p], cod := [q, q] }
+private def h2 : Box := { name := "h2", dom := [q, q], cod := [p] }
+private def e : Box := { name := "e", dom := [y], cod := [y] }
+private def h3 : Box := { name := "h3", dom := [p], cod := [p] }
+private def h1d : Diagram := Diagram.ofBox h1
+private def h2d : Diagram := Diagram.ofBox h2
+private def F1 : Functor :=
+  { ob := [("x", [p]), ("y", [p])],
+    ar := [(f, h1d.thenD h2d), (g, Diagram.id [p]), (e, Diagram.ofBox h3)] }
+private def d1 : Diagram :=
+  match Diagram.mk? [x] [y] [f, g, f, e] [0, 0, 0, 0] with
+  | .ok d => d | .error _ => Diagram.id []
+
+private def sliceLaw (F : Functor) (d : Diagram) (i j : Option Int) : Bool :=
+  match F.apply d, d.slice i j with
+  | .ok fd, .ok s =>
+    (match F.apply s, fd.slice (some (F.imgIdx d.boxes (pyLo d.boxes.length i) : Nat))
+        (some (F.imgIdx d.boxes (pyHi d.boxes.length j) : Nat)) with
+     | .ok a, .ok b => a == b && decide (a.boxes.length = F.imgIdx s.boxes s.boxes.length)
+     | _, _ => false)
+  | _, _ => false
+
+example : (d1.boxes.length, (match F1.apply d1 with | .ok r => r.boxes.length | .error _ => 0),
+    F1.imgIdx d1.boxes 1, F1.imgIdx d1.boxes 2, F1.imgIdx d1.boxes 3) = (4, 5, 2, 2, 4) := by decide
+example : sliceLaw F1 d1 (some 1) (some 3) = true := by decide
+example : sliceLaw F1 d1 (some (-3)) none = true := by decide
+example : sliceLaw F1 d1 (some 2) (some 1) = true := by decide
+example : sliceLaw F1 d1 none (some 7) = true := by decide
+
+private def s1 : Sum := ⟨[d1, d1], [x], [y]⟩
+example : (match F1.applySum s1, F1.apply d1 with
+    | .ok r, .ok fd => r == ⟨[fd, fd], [p], [p]⟩ && fd.boxes.length == 5
+    | _, _ => false) = true := by decide
+example : F1.applySum (Sum.zero [x, y] [y]) = .ok (Sum.zero [p, p] [p]) := by decide
 
 end DV.C04
